@@ -75,11 +75,19 @@ theorem accepted_becomes_inflight (s : Ofl.St) (keys : List Nat) (k : Nat)
     (h : k ∈ (handleOffer false 1 (Ofl.env s) true 7 keys).waitingFor) :
     Ofl.inflight s k = false ∧ Ofl.inflight (Ofl.step s (.offer keys)).1 k = true := Ofl.accepted_becomes_inflight s keys k h
 
+/-- a version-0 offer does not consult the marks but sets them: a version-1 offer arriving while it is pending declines -/
+theorem v0_accepted_is_marked (s : Ofl.St) (keys : List Nat) (k : Nat)
+    (h : k ∈ (handleOffer false 0 (Ofl.env s) true 7 keys).waitingFor) :
+    Ofl.inflight (Ofl.stepM s (.offer 0 keys)).1 k = true := Ofl.v0_accepted_is_marked s keys k h
+
+example : ((Ofl.stepM (Ofl.stepM {} (.offer 0 [4])).1 (.offer 1 [4, 5])).2) = [.inProgress, .accepted] := by decide
+
 /-- the history of the seeded change C09c: A = {1,2} pending, B = {2,3} ends, C = {2} must still be declined -/
 example : (Ofl.run {} [.offer [1, 2], .offer [2, 3], .finish 1, .offer [2]]).2 =
     [[.accepted, .accepted], [.inProgress, .accepted], [], [.inProgress]] := by decide
 
 #print axioms never_received_twice
+#print axioms v0_accepted_is_marked
 #print axioms pending_key_declined
 #print axioms finish_keeps_others
 #print axioms accepted_becomes_inflight
